@@ -129,7 +129,10 @@ func (v *printer) Printf(format string, args ...interface{}) {
 }
 
 func (v *printer) Println(args ...interface{}) {
-	if v.enab.Enabled(v.level) {
+	// The level pre-check must not swallow entries whose level carries a
+	// terminal action (DPanic and above): the logger runs that action even
+	// when the level is disabled.
+	if v.level >= zapcore.DPanicLevel || v.enab.Enabled(v.level) {
 		v.print(sprintln(args))
 	}
 }
